@@ -40,6 +40,8 @@ def main(argv=None) -> int:
             raise AnalysisError(f"no rule armed for {prop} (fail-closed)")
         repo = Repo(args.root)
         report = Report(prop, repo)
+        for note_ in getattr(repo, "alpha_notes", [])[:40]:
+            report.note("alpha-normalised: " + note_)
         mod.run(repo, report, args.tier)
         if not report.obligations:
             raise AnalysisError(f"no obligation generated for {prop} (vacuous check)")
